@@ -38,10 +38,11 @@ class Contract:
         self.trusted = bool(d.get('trusted', False))
         self.raises = tuple(d.get('raises', ()))
         self.returns = d.get('returns')
+        self.pure = d.get('pure')              # name of the logical function the result is (deterministic in its args)
         self.compare = d.get('compare')
         self.loops_decl = d.get('loops', {})
         self.cases_decl = d.get('cases')
-        self.opc = d.get('opc', None)          # subject to the common op contract
+        self.extends = d.get('extends', None)  # key of a parent contract whose requires/ensures are added
         self.assumptions = tuple(d.get('assumptions', ()))
         self.tags = tuple(d.get('tags', ()))
         self.fn = {}
